@@ -62,6 +62,8 @@ Record CInv (s : cstate) : Prop := {
   i_owner : forall ch o, cmap (cg s) ch = Some o ->
             exists w, owner (objs (cg s) o) = Some w /\ In w (members (objs (cg s) o));
   i_nodup_members : forall o, NoDup (members (objs (cg s) o));
+  (* the cached delivery list is the member list filtered by the read allow-list, at every moment *)
+  i_targets : forall o, targets (objs (cg s) o) = filter (allowed (racl (objs (cg s) o))) (members (objs (cg s) o));
   i_nodup_idx : forall u, NoDup (idx (cg s) u);
   i_nodup_reg : forall u, NoDup (reg (cg s) u);
   i_reg_cuser : forall c u, In c (reg (cg s) u) <-> cuser (cg s) c = Some u;
@@ -75,6 +77,9 @@ Record CInv (s : cstate) : Prop := {
   i_tasks : forall t k, In (t, k) (tasks s) -> task_ok (cg s) t k;
   (* who joins an existing channel is not its owner while the announcement is pending (so a rollback leaves the owner in) *)
   i_join_guest : forall t k ch o n id, In (t, k) (tasks s) -> t_pc k = PJoinNotify ch o false n id -> is_owner (objs (cg s) o) n = false }.
+
+(* the three allow-lists: 1 join, 2 publish, anything else read *)
+Definition acl_class (ty : N) : N := if ty =? 1 then 1 else if ty =? 2 then 2 else 3.
 
 (* the source as it is now: both fixes present *)
 Definition fixed (cf : ccfg) : Prop := ptr_check cf = true /\ idx_early cf = true.
@@ -90,5 +95,8 @@ Definition leave_pc (p : pc) : Prop :=
 Definition other_pc (p : pc) : Prop :=
   match p with
   | PStart (RBcast _ _ _) | PStart (RMembers _ _) | PStart (RChannels _) | PBcastGate _ _ _ | PBcastWait _ _ _ _ | PMembersWait _ _ _ | PDone => True
+  | PStart (RGetAcl _ _ _) | PGetAclWait _ _ _ _ => True
   | _ => False
   end.
+Definition acl_pc (p : pc) : Prop :=
+  match p with PStart (RSetAcl _ _ _ _ _) | PSetAclWait _ _ _ _ _ _ => True | _ => False end.
